@@ -125,6 +125,39 @@ def _known_variant(stmts, local, depth=0, names=False):
     return None
 
 
+def _pure_moves(B):
+    """{dst: src} when the block only moves whole locals around (and ends in goto), else None"""
+    if B.get("cleanup") or B["term"]["k"] != "goto":
+        return None
+    mv = {}
+    for st in B["stmts"]:
+        rv = st.get("rv", {})
+        if st["k"] == "assign" and not st["dst"].get("p") and rv.get("k") == "use" and rv["a"].get("k") in ("move", "copy") and not rv["a"]["p"].get("p"):
+            mv[st["dst"]["l"]] = rv["a"]["p"]["l"]
+        else:
+            return None
+    return mv
+
+
+def _sources(F, preds, target_id, local, depth=3):
+    """[(P, statements of the forwarding blocks between P and the target, local to look up in P)] for the predecessors of a block,
+    looking through up to `depth` forwarding blocks that only move locals"""
+    out = []
+    for pid in preds.get(target_id, []):
+        P = F["blocks"][pid]
+        out.append((P, [], local))
+        mv = _pure_moves(P)
+        if mv is not None and depth > 0:
+            x = local
+            n = 0
+            while x in mv and n < 4:
+                x = mv[x]
+                n += 1
+            for Q, extra, xl in _sources(F, preds, P["id"], x, depth - 1):
+                out.append((Q, extra + P["stmts"], xl))
+    return out
+
+
 def thread_variants(F):
     """After a helper returning Option/Result was expanded, the caller's `match` on the result is reached from several copies of the
     helper's return, each knowing which variant it built. The dispatching block is cloned per such predecessor and the clone jumps
@@ -167,27 +200,7 @@ def thread_variants(F):
             while x in mvC and n0 < 4:
                 x = mvC[x]
                 n0 += 1
-            work_c = []
-            for pid in list(preds.get(C["id"], [])):
-                P = F["blocks"][pid]
-                work_c.append((P, [], x))
-                # one forwarding block in between (the expanded helper's common return block: only moves, then goto C)
-                mvP = {}
-                pure = P["term"]["k"] == "goto" and not P.get("cleanup")
-                for st in P["stmts"]:
-                    rv = st.get("rv", {})
-                    if st["k"] == "assign" and not st["dst"].get("p") and rv.get("k") == "use" and rv["a"].get("k") in ("move", "copy") and not rv["a"]["p"].get("p"):
-                        mvP[st["dst"]["l"]] = rv["a"]["p"]["l"]
-                    else:
-                        pure = False
-                if pure:
-                    x2 = x
-                    n2 = 0
-                    while x2 in mvP and n2 < 4:
-                        x2 = mvP[x2]
-                        n2 += 1
-                    for qid in preds.get(P["id"], []):
-                        work_c.append((F["blocks"][qid], P["stmts"], x2))
+            work_c = _sources(F, preds, C["id"], x)
             for P, extra, xl in work_c:
                 if P["term"]["k"] != "goto":
                     continue
@@ -239,32 +252,7 @@ def thread_variants(F):
             while src in moves and n < 4:
                 src = moves[src]
                 n += 1
-            def pure_moves(B):
-                mv = {}
-                for st in B["stmts"]:
-                    if st["k"] != "assign" or st["dst"].get("p"):
-                        return None
-                    rv = st["rv"]
-                    if rv["k"] == "use" and rv["a"].get("k") in ("move", "copy") and not rv["a"]["p"].get("p"):
-                        mv[st["dst"]["l"]] = rv["a"]["p"]["l"]
-                    else:
-                        return None
-                return mv
-            # (predecessor, statements to replay before the arm, local whose variant decides) - directly, or through one forwarding
-            # block that only moves locals around (the expanded helper's common return block)
-            work = []
-            for pid in preds.get(J["id"], []):
-                P = F["blocks"][pid]
-                work.append((P, [], src))
-                mv = pure_moves(P) if not P.get("cleanup") else None
-                if mv is not None and P["term"]["k"] == "goto":
-                    s2 = src
-                    n2 = 0
-                    while s2 in mv and n2 < 4:
-                        s2 = mv[s2]
-                        n2 += 1
-                    for qid in preds.get(P["id"], []):
-                        work.append((F["blocks"][qid], P["stmts"], s2))
+            work = _sources(F, preds, J["id"], src)
             for P, extra, loc in work:
                 if P["term"]["k"] != "goto":
                     continue
@@ -333,6 +321,32 @@ def _rewrite_strings(o, keys, ren):
     elif isinstance(o, list):
         for v in o:
             _rewrite_strings(v, keys, ren)
+
+
+def fingerprint(f):
+    """what a function body mentions besides calls: enum variants built, small integer constants, named constants, field names"""
+    out = set()
+
+    def visit(o):
+        if isinstance(o, dict):
+            if o.get("k") == "agg" and o.get("ak") == "adt" and o.get("variant"):
+                out.add(f"{o.get('adt')}::{o['variant']}")
+            if o.get("k") == "const":
+                v = o.get("value")
+                if isinstance(v, int) and abs(v) < (1 << 32):
+                    out.add(f"#{v}")
+                if o.get("path") and not o.get("promoted"):
+                    out.add("c:" + str(o["path"]).rsplit("::", 1)[-1])
+            if o.get("k") == "field" and o.get("n"):
+                out.add("." + str(o["n"]))
+            for k, v in o.items():
+                if k != "sp":
+                    visit(v)
+        elif isinstance(o, list):
+            for v in o:
+                visit(v)
+    visit(f["blocks"])
+    return sorted(out)
 
 
 def alias_renames(prog):
@@ -405,8 +419,10 @@ def alias_renames(prog):
                 sim = 1.0 if (not cs and not bs) else inter / union
                 nb = b.get("nblocks") or 1
                 size = 1.0 - min(1.0, abs(len(f["blocks"]) - nb) / max(nb, 1))
+                fpn, fpb = set(fingerprint(f)), set(b.get("fp", []))
+                fps = 1.0 if (not fpn and not fpb) else len(fpn & fpb) / (len(fpn | fpb) or 1)
                 if sim >= 0.5:
-                    scores.append((sim + 0.25 * size, k, n))
+                    scores.append((sim + 0.25 * size + 0.5 * fps, k, n))
         # accept pairs that are each other's best candidate by a clear margin
         best_for_k, best_for_n = {}, {}
         for sc, k, n in sorted(scores, reverse=True):
